@@ -203,6 +203,80 @@ theorem C03_executor_refuses {ε} (d : Option (List (XKey × ε))) :
             simp only [List.getElem?_cons_succ] at hgen'
             exact h5 k (by omega) gen' hgen' outs' ho'
 
+/-- **A validated dictionary is never refused later.** Once `_validate_executor_names` has accepted the (normalised) dictionary for the
+    functions of the pipeline, `_executor_for_func` finds an executor for every one of them: no generation is ever submitted
+    partially, and no user function runs before a refusal (the refusals are all in `prepare_run`). -/
+theorem C03_executor_validated_total {ε} (parallel : Bool) (pool : ε) (d : Option (List (XKey × ε))) (fns : List (List String))
+    (hv : validateNames d fns = .ok ()) : ∀ outs ∈ fns, (executorFor (maybeExecutor parallel pool d) outs).isRefuse = false := by
+  intro outs ho
+  cases d with
+  | none =>
+    cases parallel
+    · simp [maybeExecutor, executorFor, Choice.isRefuse]
+    · have hself : klookup [(XKey.default, pool)] XKey.default = some pool := by simp [klookup]
+      have hm : maybeExecutor true pool (none : Option (List (XKey × ε))) = some [(XKey.default, pool)] := rfl
+      rw [hm]
+      simp only [executorFor]
+      by_cases hk : XKey.default = keyOf outs
+      · rw [← hk, hself]; rfl
+      · have hne : klookup [(XKey.default, pool)] (keyOf outs) = none := by simp [klookup, hk]
+        rw [hne, hself]; rfl
+  | some d =>
+    simp only [validateNames] at hv
+    simp only [maybeExecutor, executorFor]
+    split at hv
+    · cases hv
+    · split at hv
+      · next hdef =>
+        cases hk : klookup d (keyOf outs) with
+        | some e => simp [Choice.isRefuse]
+        | none =>
+          cases hd : klookup d XKey.default with
+          | some e => simp [Choice.isRefuse]
+          | none => rw [hd] at hdef; cases hdef
+      · split at hv
+        · cases hv
+        · next hnone =>
+          have := List.find?_eq_none.mp hnone outs ho
+          cases hk : klookup d (keyOf outs) with
+          | some e => simp [Choice.isRefuse]
+          | none => rw [hk] at this; simp at this
+
+/-- **The whole decision never refuses at submission.** `selectAll` answers with a refusal of `prepare_run`
+    (`needsParallel`, `badKey`, `uncovered`) or with a choice for every function — never with `noExecutor`. -/
+theorem C03_executor_refusals_are_early {ε} (parallel : Bool) (pool : ε) (arg : ExecArg ε) (gens : List (List (List String)))
+    (g : Nat) (outs : List String) : selectAll parallel pool arg gens ≠ .error (.noExecutor g outs) := by
+  intro h
+  simp only [selectAll, bind, Except.bind] at h
+  cases hn : normalise parallel arg with
+  | error e =>
+    rw [hn] at h
+    cases arg <;> simp only [normalise] at hn <;> (try split at hn) <;> simp_all [pure, Except.pure, throw, throwThe, MonadExceptOf.throw]
+  | ok d =>
+    rw [hn] at h
+    simp only at h
+    cases hv : validateNames d gens.flatten with
+    | error e =>
+      rw [hv] at h
+      simp only [Except.error.injEq] at h
+      subst h
+      cases d with
+      | none => simp [validateNames, pure, Except.pure] at hv
+      | some d =>
+        simp only [validateNames] at hv
+        split at hv
+        · cases hv
+        · split at hv
+          · cases hv
+          · split at hv <;> cases hv
+    | ok u =>
+      rw [hv] at h
+      simp only at h
+      obtain ⟨g', o', gen, he, hrf, _, hg, hmem, _⟩ := C03_executor_refuses (maybeExecutor parallel pool d) gens 0 _ h
+      have := C03_executor_validated_total parallel pool d gens.flatten hv o'
+        (List.mem_flatten.mpr ⟨gen, List.mem_of_getElem? hg, hmem⟩)
+      rw [hrf] at this; cases this
+
 /-! non-vacuity: a dictionary with a tuple key, a single-name key of a tuple output (ignored), with and without default -/
 private def d1 : Option (List (XKey × String)) := some [(.tuple ["a", "b"], "E1"), (.name "c", "E2"), (.name "", "E0")]
 example : executorFor d1 ["a", "b"] = .submit "E1" := by decide
@@ -210,10 +284,17 @@ example : executorFor d1 ["c"] = .submit "E2" := by decide
 example : executorFor d1 ["z"] = .submit "E0" := by decide
 /-- the key `"a"` does not cover the function with outputs `(a, b)` -/
 example : executorFor (some [(XKey.name "a", "E1")]) ["a", "b"] = .refuse := by rfl
-example : selectAll true "pool" (.dict [(.name "y", "E1")]) [[["x"], ["y"]], [["z"]]] = .error (.noExecutor 0 ["x"]) := by rfl
-example : selectAll true "pool" (.dict [(.name "y", "E1"), (.name "x", "E2")]) [[["x"], ["y"]], [["z"]]] = .error (.noExecutor 1 ["z"]) := by rfl
+/-- the generation loop alone would refuse only when the uncovered function's generation is submitted (what the code did before the
+    DF-C12-executor-dict repair: `x`, `y` of generation 0 had already run when `z` was refused) … -/
+example : selectGens (some [(XKey.name "y", "E1"), (.name "x", "E2")]) 0 [[["x"], ["y"]], [["z"]]] = .error (.noExecutor 1 ["z"]) := by rfl
+/-- … `prepare_run` now refuses the same requests up front, before anything runs -/
+example : selectAll true "pool" (.dict [(.name "y", "E1")]) [[["x"], ["y"]], [["z"]]] = .error (.uncovered ["x"]) := by rfl
+example : selectAll true "pool" (.dict [(.name "y", "E1"), (.name "x", "E2")]) [[["x"], ["y"]], [["z"]]] = .error (.uncovered ["z"]) := by rfl
+example : selectAll true "pool" (.dict [(.name "q", "E1"), (.name "", "E0")]) [[["x"]]] = .error .badKey := by rfl
+/-- a single name of a tuple output is a known key, but does not cover the function -/
+example : selectAll true "pool" (.dict [(.name "a", "E1")]) [[["a", "b"]]] = .error (.uncovered ["a", "b"]) := by rfl
 /-- an empty dictionary passes the `parallel=False` check (it is falsy) but is still a dictionary without any executor -/
-example : selectAll false "pool" (.dict []) [[["x"]]] = .error (.noExecutor 0 ["x"]) := by rfl
+example : selectAll false "pool" (.dict []) [[["x"]]] = .error (.uncovered ["x"]) := by rfl
 example : selectAll false "pool" (ExecArg.none) [[["x"]]] = .ok [[(["x"], .inParent)]] := by rfl
 example : selectAll true "pool" (ExecArg.none) [[["x"]]] = .ok [[(["x"], .submit "pool")]] := by rfl
 
